@@ -20,10 +20,10 @@
 #define DEADCAN 0xDEADDEADDEADDEADULL
 
 enum { K_NODE, K_NODEA, K_REF, K_BOX, K_ARR, K_LST, K_TAB, K_TRE, K_TUP, K_TABR, K_ARRB,
-       K_NODEB, K_NODEO, K_NODEZ, K_TRER, K_THR, K_LSTB, K_TABB, K_TREB, K_NODEM, K_NODED, K_TRE4 };
+       K_NODEB, K_NODEO, K_NODEZ, K_TRER, K_THR, K_LSTB, K_TABB, K_TREB, K_NODEM, K_NODED, K_TRE4, K_TAB4 };
 enum { C_MANAGED, C_ROOT, C_RAW };
 static const char* kind_names[] = { "node", "nodea", "ref", "box", "arr", "lst", "tab", "tre", "tup", "tabr", "arrb",
-                                    "nodeb", "nodeo", "nodez", "trer", "thr", "lstb", "tabb", "treb", "nodem", "noded", "tre4", NULL };
+                                    "nodeb", "nodeo", "nodez", "trer", "thr", "lstb", "tabb", "treb", "nodem", "noded", "tre4", "tab4", NULL };
 /* instrumented objects (destructor observed): plain 48-byte struct, the same from the arena, a 1 MiB struct whose last
  * two words are pointer fields, a 52-byte struct (size not a multiple of the word size), a type of size 0, a struct that
  * keeps its 4 pointer fields in a malloc'd side block and implements Mark to report them (the documented extension point),
@@ -238,7 +238,8 @@ static var mk(int h, int kind, int cls, var a0, var a1) {
     case K_NODEZ: type = NodeZ; args = t_id; break;
     case K_NODEM: type = NodeM; args = t_id; break;
     case K_TRER: type = Tree; args = t_refref; break;
-    case K_TRE4: type = Tree; args = t_tag4ref; break;      /* 4-byte keys: every value sits at an address that is 4 mod 8 */
+    case K_TRE4: type = Tree; args = t_tag4ref; break;
+    case K_TAB4: type = Table; args = t_tag4ref; break;     /* 4-byte keys: the value offset is the key size rounded up */      /* 4-byte keys: every value sits at an address that is 4 mod 8 */
     case K_THR: type = Thread; args = t_none; break;
     case K_LSTB: type = List; args = t_box; break;
     case K_TABB: type = Table; args = t_intbox; break;
@@ -257,7 +258,7 @@ static var mk(int h, int kind, int cls, var a0, var a1) {
   }
   var r = NULL;
   bool seq = kind is K_ARR or kind is K_LST or kind is K_ARRB or kind is K_LSTB;
-  bool map = kind is K_TAB or kind is K_TABR or kind is K_TRE or kind is K_TRER or kind is K_TABB or kind is K_TREB or kind is K_TRE4;
+  bool map = kind is K_TAB or kind is K_TABR or kind is K_TRE or kind is K_TRER or kind is K_TABB or kind is K_TREB or kind is K_TRE4 or kind is K_TAB4;
   int mode = (seq or map) ? retype_mode : 0;
   if (seq or map) { retype_mode = 0; }
   if (mode is 3 and cls is C_MANAGED) {
@@ -372,13 +373,13 @@ static void dump_targets(var c, int kind) {
       if (not first) { fputc(',', out); } first = false;
       fprintf(out, "%d:%d", k, find_by_ptr(get(c, $S(key))));
     }
-  } else if (kind is K_TAB or kind is K_TRE or kind is K_TABR or kind is K_TRER or kind is K_TABB or kind is K_TREB or kind is K_TRE4) {
+  } else if (kind is K_TAB or kind is K_TRE or kind is K_TABR or kind is K_TRER or kind is K_TABB or kind is K_TREB or kind is K_TRE4 or kind is K_TAB4) {
     size_t guard = 0;
     for (var k = iter_init(c); k isnt Terminal and guard++ < 100000; k = iter_next(c, k)) {
       var v = deref(get(c, k));
       if (not first) { fputc(',', out); } first = false;
       if (kind is K_TABR or kind is K_TRER) { fprintf(out, "%d:%d", find_by_ptr(deref(k)), find_by_ptr(v)); }
-      else if (kind is K_TRE4) { fprintf(out, "%d:%d", (int)((struct Tag4*)k)->id, find_by_ptr(v)); }
+      else if (kind is K_TRE4 or kind is K_TAB4) { fprintf(out, "%d:%d", (int)((struct Tag4*)k)->id, find_by_ptr(v)); }
       else { fprintf(out, "%lld:%d", (long long)c_int(k), find_by_ptr(v)); }
     }
   } else {
@@ -441,7 +442,7 @@ static void do_op(char** w, int n) {
       case K_ARRB: case K_LSTB: push(P(s), t); break;
       case K_BOX: ref(P(s), t); break;
       case K_TAB: case K_TRE: set(P(s), $I(k), $R(t)); break;
-      case K_TRE4: set(P(s), $(Tag4, (int32_t)k), $R(t)); break;
+      case K_TRE4: case K_TAB4: set(P(s), $(Tag4, (int32_t)k), $R(t)); break;
       case K_TABB: case K_TREB: set(P(s), $I(k), $B(t)); break;      /* the Box element takes over the pointer */
       case K_TABR: case K_TRER: set(P(s), $R(P(hnd(w[2]))), $R(t)); break;
       case K_TUP: push(P(s), t); break;
@@ -458,7 +459,7 @@ static void do_op(char** w, int n) {
       case K_ARR: case K_LST: case K_TUP: case K_ARRB: case K_LSTB: pop(P(s)); break;
       case K_TAB: case K_TRE: case K_TABB: case K_TREB: rem(P(s), $I(k)); break;
       case K_TABR: case K_TRER: rem(P(s), $R(P(hnd(w[2])))); break;
-      case K_TRE4: rem(P(s), $(Tag4, (int32_t)k)); break;
+      case K_TRE4: case K_TAB4: rem(P(s), $(Tag4, (int32_t)k)); break;
       case K_THR: rem(P(s), $S(key)); break;
       default: harness_bug("unstore kind");
     }
